@@ -113,7 +113,7 @@ def config_of(s, src, out):
     return cfg
 
 
-def write_state(root, s, path):
+def write_state(root, s, path, absolute=False):
     src = os.path.join(root, "src-tauri")
     common.rmtree(src)
     common.write_tree(src, render(s))
@@ -122,7 +122,7 @@ def write_state(root, s, path):
         json.dump(config_of(s, src, out), open(os.path.join(root, "cfg.json"), "w"))
     else:
         json.dump({"productName": "app"}, open(os.path.join(root, "tauri.conf.json"), "w"))
-        json.dump(config_of(s, "src-tauri", "gen"), open(os.path.join(root, "typegen.json"), "w"))
+        json.dump(config_of(s, src if absolute else "src-tauri", out if absolute else "gen"), open(os.path.join(root, "typegen.json"), "w"))
     return src, out
 
 
@@ -145,6 +145,18 @@ def reference(cli, root, s, hs):
     return r, common.read_outputs(ref)
 
 
+def graph_norm(text):
+    import re
+    lines = []
+    for ln in text.splitlines():
+        ln = re.sub(r"[^\s(]*src-tauri/", "src-tauri/", ln)      # the listing prints source paths as given (relative or absolute)
+        if ": " in ln and ", " in ln:
+            head, tail = ln.split(": ", 1)
+            ln = head + ": " + ", ".join(sorted(tail.split(", ")))
+        lines.append(ln)
+    return sorted(lines)
+
+
 def compare(now, ref):
     """-> list of (file, kind) for every file the forced generation writes"""
     bad = []
@@ -154,7 +166,9 @@ def compare(now, ref):
         if f not in now:
             bad.append((f, "missing"))
         elif f.startswith("dependency-graph"):
-            continue
+            # listings follow hash order: compare as multisets of lines, comma lists sorted within a line
+            if graph_norm(now[f]) != graph_norm(text):
+                bad.append((f, "stale"))
         elif now[f] != text and decl_multiset(now[f]) != decl_multiset(text):
             bad.append((f, "stale"))
     return bad
@@ -287,4 +301,4 @@ def run(tier):
             "declarations) with a forced generation of the current state into an empty directory; all length-1 and all ordered length-2 histories "
             "on the CLI path are enumerated; distinct by (edit sequence, run mask, path, initial mode)" % len(names))
     return v.finish(rule, assumptions=["the tool's own forced generation is the reference (differential oracle)",
-                                       "a run that reports failure promises nothing; dependency-graph files are compared by existence only"])
+                                       "a run that reports failure promises nothing; dependency-graph files are compared as multisets of lines (their order follows hash order)"])
